@@ -89,3 +89,22 @@ fn n_send_iterd() { let mut n: Network<u8> = Network::new_unordered_nonduplicati
 #[kani::proof]
 #[kani::unwind(4)]
 fn n_send_itera() { let mut n: Network<u8> = Network::new_unordered_nonduplicating([]); n.send(Envelope{src: Id::from(0usize), dst: Id::from(1usize), msg: kani::any()}); let mut it = n.iter_all(); assert!(it.next().is_some()); assert!(it.next().is_none()); }
+use crate::util::HashableHashMap;
+#[kani::proof]
+#[kani::unwind(4)]
+fn q_build_only() { let mut m: HashableHashMap<Envelope<u8>, usize> = HashableHashMap::with_hasher(crate::stable::build_hasher()); m.insert(Envelope{src: Id::from(0usize), dst: Id::from(1usize), msg: kani::any()}, 2usize); assert!(m.len() == 1); }
+#[kani::proof]
+#[kani::unwind(4)]
+fn q_build_default() { let mut m: HashableHashMap<Envelope<u8>, usize> = HashableHashMap::new(); m.insert(Envelope{src: Id::from(0usize), dst: Id::from(1usize), msg: kani::any()}, 2usize); assert!(m.len() == 1); }
+#[kani::proof]
+#[kani::unwind(4)]
+fn q_net_len() { let mut m: HashableHashMap<Envelope<u8>, usize> = HashableHashMap::new(); m.insert(Envelope{src: Id::from(0usize), dst: Id::from(1usize), msg: kani::any()}, 2usize); let n = Network::UnorderedNonDuplicating(m); assert!(n.len() == 2); }
+#[kani::proof]
+#[kani::unwind(4)]
+fn q_entry() { let mut m: HashableHashMap<Envelope<u8>, usize> = HashableHashMap::new(); *m.entry(Envelope{src: Id::from(0usize), dst: Id::from(1usize), msg: kani::any()}).or_insert(0) += 1; assert!(m.len() == 1); }
+#[kani::proof]
+#[kani::unwind(4)]
+fn q_new_net() { let n: Network<u8> = Network::new_unordered_nonduplicating([]); assert!(n.len() == 0); }
+#[kani::proof]
+#[kani::unwind(4)]
+fn q_send_direct() { let mut n: Network<u8> = Network::UnorderedNonDuplicating(HashableHashMap::new()); n.send(Envelope{src: Id::from(0usize), dst: Id::from(1usize), msg: kani::any()}); assert!(n.len() == 1); }
